@@ -3,6 +3,7 @@ import numpy as np
 
 from .. import sx, gen, lib, meaning as M, monitors, minimise, gateset
 from .common import header_diff, native_names, prog_features, sig, case_prog
+from .c11 import fold_sections
 
 RULE = ("(a) pass: random programs (anonymous and native gate sets) with subcircuit blocks at top level, in loops, in "
         "sequential blocks and inside macros, with and without counts, mixed with explicit prepare/measure sections; oracle = "
@@ -11,7 +12,7 @@ RULE = ("(a) pass: random programs (anonymous and native gate sets) with subcirc
         "non-trivial = program contains a subcircuit block; distinct = S-expression + mode")
 ASSUMPTIONS = ["reference expansion in vf/meaning.py", "harness native gate set (vf/gateset.py)"]
 TIERS = {"quick": {"shards": 8, "budget_s": 45}, "thorough": {"shards": 16, "budget_s": 300}}
-REQUIRE = {"calls-after-earlier-call-on-same-object": 500, "sub-in-macro": 20, "sub-in-loop": 20, "mode:pass": 200, "mode:exec": 100, "native-bounding-gates": 50,
+REQUIRE = {"native:partial": 100, "calls-after-earlier-call-on-same-object": 500, "sub-in-macro": 20, "sub-in-loop": 20, "mode:pass": 200, "mode:exec": 100, "native-bounding-gates": 50,
            "caller-bounding-gates": 20, "exec-readouts-compared": 100}
 
 NATIVE = None
@@ -88,10 +89,17 @@ def judge_pass(case):
     caller = case.get("caller")  # None | 'defs' | 'names'
     if not sx.legal_nesting(prog):
         return "skipped:illegal-nesting", []
-    o = lib.outcome(lib.parse, sx.to_text(prog), native() if use_native else None)
+    gates = None
+    if case.get("native") == "partial":
+        # a gate set that lacks the bounding gates: the pass has to supply them without touching its input
+        gates = {k: v for k, v in native().items() if k not in ("prepare_all", "measure_all", "I_prepare_all", "I_measure_all")}
+    elif use_native:
+        gates = native()
+    o = lib.outcome(lib.parse, sx.to_text(prog), gates)
     if o[0] != "ok":
         return "skipped:input-rejected:" + o[1], []
     c = o[1]
+    native_before = dict(c.native_gates)
     try:
         kc = M.core_from_ir(c)
         expected = M.meaning(kc, expand_macros=False, expand_sub=True, expand_a1=True)
@@ -117,6 +125,9 @@ def judge_pass(case):
         args = (pdef, mdef)
     elif caller == "names" and use_native:
         args = ("prepare_all", "measure_all")
+    elif caller == "names-new":
+        args = ("prep_x", "meas_x")
+        pname, mname = "prep_x", "meas_x"
     fails = []
     if case.get("prior"):
         # an earlier call on the SAME circuit object with other bounding gates must leave nothing behind
@@ -141,8 +152,8 @@ def judge_pass(case):
             return "ok", fails + [("malformed-result", {"error": str(ex)[:200]})]
         got = M.meaning(kr, expand_macros=False, expand_a1=True)
         got_macros = M.macro_meanings(kr, expand_a1=True)
-        if caller == "defs":
-            ren = lambda t: _rename(t, {"my_prep": "prepare_all", "my_meas": "measure_all"})
+        if caller in ("defs", "names-new"):
+            ren = lambda t: _rename(t, {"my_prep": "prepare_all", "my_meas": "measure_all", "prep_x": "prepare_all", "meas_x": "measure_all"})
             got, got_macros = ren(got), {k: (p, ren(b)) for k, (p, b) in got_macros.items()}
         if not M.tree_equal(expected, got):
             fails.append(("meaning-differs", {"diff": M.first_diff(expected, got)}))
@@ -151,8 +162,12 @@ def judge_pass(case):
         hd = header_diff(kc, kr, what=("lets", "regs", "usepulses", "macros"))
         if hd:
             fails.append(("header-changed:" + "+".join(h[0] for h in hd), {"diff": hd}))
-        if native_names(c) != native_names(r):
+        if native_names(c) != native_names(r) and case.get("native") != "partial":
             fails.append(("native-gates-changed", {"before": native_names(c), "after": native_names(r)}))
+        now = dict(c.native_gates)
+        if list(now) != list(native_before) or any(now[k] is not native_before[k] for k in now):
+            fails.append(("input-header-modified:native-gates", {"added": sorted(set(now) - set(native_before)),
+                                                                "removed": sorted(set(native_before) - set(now))}))
         # which definitions bound the subcircuits
         old = gate_statement_ids(c.body)
         for m in c.macros.values():
@@ -163,7 +178,7 @@ def judge_pass(case):
         if caller in ("defs", "defs-native-names"):
             if any(d is not pdef and d is not mdef for d in defs):
                 fails.append(("bounding-gate-not-callers" + (":caller-uses-native-name" if caller != "defs" else ""), {}))
-        elif use_native:
+        elif use_native and case.get("native") != "partial":
             ng = c.native_gates
             if any(d is not ng["prepare_all"] and d is not ng["measure_all"] for d in defs):
                 fails.append(("bounding-gate-not-native", {}))
@@ -342,6 +357,12 @@ def shard(ctx):
             g = gen.ExecGen(rng, max_depth=rng.choice([1, 2, 3]), reg_size=(1, 4), loop_counts=(0, 1, 2, 3),
                             body_len=(1, 4))
             case = {"prog": g.program(), "mode": "exec", "npseed": rng.randrange(1 << 30)}
+        if case["mode"] == "pass" and case.get("native") is True and rng.random() < 0.35:
+            folded = fold_sections(case["prog"])
+            if not any(x[0] == "gate" and x[1] in ("prepare_all", "measure_all") for x in sx.walk(folded)):
+                case["prog"], case["native"] = folded, "partial"
+                case["caller"] = rng.choice([None, "defs", "names-new"])
+                rec.count("native:partial")
         if case["mode"] == "pass" and rng.random() < 0.3:
             case["prior"] = True
             rec.count("calls-after-earlier-call-on-same-object")
